@@ -2,14 +2,14 @@
 SPECIFICATION Spec
 CONSTANTS
   Domains = {"refs", "move", "scen", "meta", "sid", "setter"}
-  NL = 3
+  NL = 2
   WellFormedInputs = FALSE
   MaxMoves = 2
   MaxGen = 3
   MaxTo2d = 2
-  DtToks = {"float", "int", "npfloat", "str", "None", "bool", "nan", "neg"}
-  PlainToks = {"None", "v1", "v2", "bad"}
-  MetaPlain = {"author", "tags", "location"}
+  DtToks = {"float", "int", "str", "bool", "nan"}
+  PlainToks = {"None", "v1", "bad"}
+  MetaPlain = {"author", "tags"}
   DEV_RemoveAreaKeepsRefs = TRUE
   DEV_CleanupSkipsBorders = TRUE
   DEV_MoveSkipsAreas = TRUE
